@@ -1,7 +1,192 @@
-(* C07 - connect/accept and IPC handle passing.  Only statements. *)
-From UV Require Import Lib.Base Model.Accept Model.Connect Proofs.ConnectProofs.
+(* C07 - connect/accept and IPC handle passing: nothing lost, duplicated or mis-typed.
+   Only statements, each closed by a lemma proved in Proofs/AcceptProofs.v or
+   Proofs/ConnectProofs.v, with Print Assumptions beneath.
+
+   Vocabulary (Model/Accept.v).  Descriptors are integers; the hypotheses
+   [Forall acc_ok ao] / [Forall op_ok os] say that the descriptors the kernel hands out
+   (accept4 answers, SCM_RIGHTS contents) are >= 0.  Trace projections:
+     arrivals = stored by libuv (EKeep), handed = arrivals + shed at once (EShed: EMFILE
+     trick, UV_ENOMEM), departs = left libuv's hands through uv_accept (EClaim), a failing
+     uv_accept (EDrop) or uv_close (EShutC), claimed = EClaim only, closed = every descriptor
+     libuv closed itself; held s = accepted_fd followed by the first [offset] slots of
+     queued_fds. *)
+From UV Require Import Lib.Base Model.Accept Model.Connect Proofs.AcceptProofs Proofs.ConnectProofs.
+From Coq Require Import Permutation.
 Local Open Scope Z_scope.
 
+(* ---- the queued_fds array (invariant A2), for every length ---- *)
+Theorem C07_Qinv_is :
+  forall a, Qinv a <->
+    (0 < q_offset a <= q_size a)%nat /\ length (q_fds a) = q_size a /\ (q_size a mod 8 = 0)%nat.
+Proof. exact Qinv_meaning. Qed.
+Print Assumptions C07_Qinv_is.
+
+(* uv__stream_queue_fd (8 slots, growing by 8): on success the descriptor is appended
+   behind everything held and the invariant is kept; on allocation failure nothing changes *)
+Theorem C07_queued_fds_push :
+  forall q fd al q' c al', oQinv q -> queue_fd q fd al = (q', c, al') ->
+  (c = 0 /\ oQinv q' /\ q' <> None /\ oqheld q' = oqheld q ++ [fd]) \/ (c = UV_ENOMEM /\ q' = q).
+Proof. exact queue_fd_spec. Qed.
+Print Assumptions C07_queued_fds_push.
+
+(* uv_accept's pop (fds[0], --offset, memmove of the rest / free when empty) *)
+Theorem C07_queued_fds_pop :
+  forall a fd q', Qinv a -> q_pop a = (fd, q') -> fd :: oqheld q' = qheld a /\ oQinv q'.
+Proof. exact q_pop_spec. Qed.
+Print Assumptions C07_queued_fds_pop.
+
+(* ---- accept: conservation of descriptors, for servers and ipc pipes alike ---- *)
+Theorem C07_accept_conservation :
+  forall kind ipc ao al oo os beh, Forall acc_ok ao -> Forall op_ok os ->
+  let '(x, tr) := run kind (init ipc ao al oo) os beh in
+  Permutation (handed tr) (claimed tr ++ held (sv x) ++ closed tr) /\
+  (NoDup (handed tr) -> NoDup (claimed tr ++ held (sv x) ++ closed tr)).
+Proof. exact conservation. Qed.
+Print Assumptions C07_accept_conservation.
+
+Theorem C07_accept_eagain_iff_none :
+  forall kind ipc ao al oo os beh c, Forall acc_ok ao -> Forall op_ok os ->
+  let s := sv (fst (run kind (init ipc ao al oo) os beh)) in
+  In (ERet UV_EAGAIN) (snd (uv_accept s c)) <-> held s = [].
+Proof. exact eagain_iff_none. Qed.
+Print Assumptions C07_accept_eagain_iff_none.
+
+(* every connection libuv keeps is announced by exactly one connection_cb, made right
+   after accept4 returned it, and there is no other connection_cb *)
+Theorem C07_connection_cb_per_connection :
+  forall kind ao al oo os beh, Forall acc_ok ao -> Forall op_ok os ->
+  let tr := snd (run kind (init false ao al oo) os beh) in
+  cb_ok tr = true /\ n_cb tr = length (arrivals tr).
+Proof.
+  intros kind ao al oo os beh Fa Fo. pose proof (cb_per_connection kind ao al oo os beh Fa Fo) as H.
+  split; [exact H|exact (cb_ok_count _ H)].
+Qed.
+Print Assumptions C07_connection_cb_per_connection.
+
+(* POLLIN paused exactly while a connection is held (A4) - as long as no uv_accept fails *)
+Theorem C07_server_rearm_partial :
+  forall kind ao al oo os beh, Forall acc_ok ao -> Forall op_ok os ->
+  no_busy os = true -> (forall k, no_busy (beh k) = true) ->
+  let s := sv (fst (run kind (init false ao al oo) os beh)) in
+  s_closing s = false -> (s_pollin s = true <-> s_acc s = -1).
+Proof. exact rearm_partial. Qed.
+Print Assumptions C07_server_rearm_partial.
+
+(* ... and after a failing uv_accept (DESIGN section 3, item 24) the server neither
+   holds a connection nor polls for one *)
+Theorem C07_server_rearm_refuted :
+  exists ao os beh,
+    let s := sv (fst (run (fun _ => 0) (init false ao [] []) os beh)) in
+    s_closing s = false /\ s_acc s = -1 /\ s_pollin s = false.
+Proof. exact rearm_refuted. Qed.
+Print Assumptions C07_server_rearm_refuted.
+
+(* ---- ipc: arrival order = claim order, count, type, array invariant ---- *)
+Theorem C07_ipc_fifo :
+  forall kind ao al oo os beh, Forall acc_ok ao -> Forall op_ok os ->
+  let '(x, tr) := run kind (init true ao al oo) os beh in
+  arrivals tr = departs tr ++ held (sv x) /\
+  pending_count (sv x) = Z.of_nat (length (held (sv x))) /\
+  pending_type kind (sv x) = match held (sv x) with [] => 0 | f :: _ => kind f end /\
+  (s_acc (sv x) = -1 -> s_q (sv x) = None) /\
+  (forall a, s_q (sv x) = Some a ->
+     (0 < q_offset a <= q_size a)%nat /\ length (q_fds a) = q_size a /\ (q_size a mod 8 = 0)%nat).
+Proof. exact ipc_fifo. Qed.
+Print Assumptions C07_ipc_fifo.
+
+(* the same order statement for any stream (a server holds at most one) *)
+Theorem C07_fifo_any_stream :
+  forall kind ipc ao al oo os beh, Forall acc_ok ao -> Forall op_ok os ->
+  let '(x, tr) := run kind (init ipc ao al oo) os beh in
+  Xinv x /\ arrivals tr = departs tr ++ held (sv x).
+Proof. exact fifo. Qed.
+Print Assumptions C07_fifo_any_stream.
+
+(* hypotheses satisfiable, state non-trivial: 13 descriptors sent in 5 messages, the
+   growth of the array fails once (descriptor 9 is closed at once), succeeds later, two
+   descriptors claimed, the rest closed by uv_close in order *)
+Example C07_ipc_nonvacuous :
+  let '(x, tr) := run (fun f => if f <? 5 then 12 else 7)
+                      (init true [] [true; false; true] [])
+                      [ORecv [[0]; [1; 2; 3]; [4; 5; 6; 7; 8; 9]]; OAccept ClFresh; ORecv [[10; 11]];
+                       OAccept ClFresh; OCount; OType; ORecv [[12]]; OClose] (fun _ => []) in
+  held (sv x) = [] /\ claimed tr = [0; 1] /\ closed tr = [9; 2; 3; 4; 5; 6; 7; 8; 10; 11; 12] /\
+  arrivals tr = [0; 1; 2; 3; 4; 5; 6; 7; 8; 10; 11; 12] /\ departs tr = arrivals tr /\
+  filter (fun e => match e with ECount _ | EType _ => true | _ => false end) tr = [ECount 9; EType 12].
+Proof. vm_compute. repeat split. Qed.
+Print Assumptions C07_ipc_nonvacuous.
+
+(* ---- connect ---- *)
+(* tcp: after close + one more iteration every request accepted with 0 was called back
+   exactly once *)
+Theorem C07_connect_once :
+  forall o os beh,
+  let '(x, tr) := crun (cinit true o) (os ++ [CClose; CRun]) beh in
+  c_closed (cs x) = true /\ forall r, In (CRet r 0) tr -> cnt (cbs tr) r = 1%nat.
+Proof.
+  intros o os beh. pose proof (connect_once true o os beh) as H.
+  destruct (crun (cinit true o) (os ++ [CClose; CRun]) beh) as [x tr].
+  destruct H as (D & _ & L & H). split; [exact D|]. intros r Hr. apply H; [exact Hr|].
+  rewrite (L eq_refl). intros [].
+Qed.
+Print Assumptions C07_connect_once.
+
+(* pipes: the same for every request that was not overwritten by a later
+   uv_pipe_connect issued while it was pending; at any moment each accepted request is
+   called back once, pending, or overwritten *)
+Theorem C07_connect_once_pipe_partial :
+  forall tcp o os beh,
+  (let '(x, tr) := crun (cinit tcp o) (os ++ [CClose; CRun]) beh in
+   c_closed (cs x) = true /\ c_req (cs x) = None /\ (tcp = true -> losts tr = []) /\
+   forall r, In (CRet r 0) tr -> ~ In r (losts tr) -> cnt (cbs tr) r = 1%nat) /\
+  (let '(x, tr) := crun (cinit tcp o) os beh in
+   forall r, In (CRet r 0) tr -> (cnt (cbs tr) r + cnt (losts tr) r + pend (cs x) r = 1)%nat).
+Proof.
+  intros tcp o os beh. split; [exact (connect_once tcp o os beh)|].
+  pose proof (connect_counting tcp o os beh) as H. destruct (crun (cinit tcp o) os beh) as [x tr].
+  apply H.
+Qed.
+Print Assumptions C07_connect_once_pipe_partial.
+
+Theorem C07_connect_once_pipe_refuted :
+  exists o os beh r,
+    let '(x, tr) := crun (cinit false o) (os ++ [CClose; CRun]) beh in
+    In (CRet r 0) tr /\ c_closed (cs x) = true /\ cnt (cbs tr) r = 0%nat.
+Proof. exact connect_once_refuted. Qed.
+Print Assumptions C07_connect_once_pipe_refuted.
+
+(* status 0 iff the oracle says established: a callback with status 0 comes from an
+   SO_ERROR answer 0 (never from a delayed error or a cancellation), delayed errors are
+   non-zero, cancellations are UV_ECANCELED; and an SO_ERROR answer 0 completes with 0 *)
+Theorem C07_connect_status :
+  (forall tcp o os beh, Forall status_ok (snd (crun (cinit tcp o) os beh))) /\
+  (forall tcp o os beh r src, In (CCb r 0 src) (snd (crun (cinit tcp o) os beh)) -> src = SrcSo) /\
+  (forall x beh r rest, c_req (cs x) = Some r -> c_delayed (cs x) = 0 -> o_so (co x) = 0 :: rest ->
+     exists e, snd (stream_connect x beh) = CCb r 0 SrcSo :: e).
+Proof.
+  split; [|split].
+  - intros tcp o os beh. pose proof (connect_counting tcp o os beh) as H.
+    destruct (crun (cinit tcp o) os beh). apply H.
+  - exact status_zero_from_oracle.
+  - exact established_status_zero.
+Qed.
+Print Assumptions C07_connect_status.
+
+(* close before completion: UV_ECANCELED through the callback, in the next iteration *)
+Theorem C07_connect_cancel :
+  forall x beh r, wf x -> c_closing (cs x) = false -> c_req (cs x) = Some r ->
+  exists e, snd (crun x [CClose; CRun] beh) = CCb r UV_ECANCELED SrcCancel :: e.
+Proof. exact close_cancels. Qed.
+Print Assumptions C07_connect_cancel.
+
+Example C07_connect_nonvacuous :
+  let '(x, tr) := crun (cinit true (mkO [0] [-115; -115] [-111; -115] [true; true; true]))
+                       ([CTcp; CRun; CTcp; CTcp; CRun] ++ [CClose; CRun]) (fun _ => []) in
+  tr = [CRet 0 0; CCb 0 (-111) SrcSo; CRet 1 0; CRet 2 UV_EALREADY; CCb 1 UV_ECANCELED SrcCancel; CClosed].
+Proof. vm_compute. reflexivity. Qed.
+Print Assumptions C07_connect_nonvacuous.
+
+(* ---- send handles ---- *)
 Theorem C07_send_handle_checked :
   forall s h, w_fd s >= 0 -> w_writable s = true ->
   (w_pipe s && w_ipc s = false -> write2 s (Some h) = UV_EINVAL_) /\
@@ -9,3 +194,31 @@ Theorem C07_send_handle_checked :
   (write2 s (Some h) = 0 -> w_pipe s && w_ipc s = true /\ h_fd h >= 0).
 Proof. exact write2_checked. Qed.
 Print Assumptions C07_send_handle_checked.
+
+(* the same statement for uv_try_write2 fails on the pinned tree: it passes NULL to
+   uv__check_before_write (DESIGN section 3, item 5) *)
+Theorem C07_try_write2_unchecked_refuted :
+  exists s h sys, w_fd s >= 0 /\ w_writable s = true /\ w_connecting s = false /\ w_wqs s = 0 /\
+    w_pipe s && w_ipc s = false /\ try_write2 false s (Some h) sys = 1.
+Proof. exact try_write2_unchecked_refuted. Qed.
+Print Assumptions C07_try_write2_unchecked_refuted.
+
+Theorem C07_try_write2_partial :
+  forall s sh sys,
+  (w_connecting s = true \/ w_wqs s <> 0 -> try_write2 false s sh sys = UV_EAGAIN_) /\
+  (w_connecting s = false -> w_wqs s = 0 -> w_fd s < 0 -> try_write2 false s sh sys = UV_EBADF) /\
+  (w_connecting s = false -> w_wqs s = 0 -> w_fd s >= 0 -> w_writable s = false ->
+     try_write2 false s sh sys = UV_EPIPE) /\
+  (forall h, sh = Some h -> h_closing h = true -> try_write2 false s sh sys < 0).
+Proof. exact try_write2_partial. Qed.
+Print Assumptions C07_try_write2_partial.
+
+(* with notes/C07_fix_try_write2.diff (send_handle passed to uv__check_before_write)
+   the full statement holds *)
+Theorem C07_try_write2_checked_fixed :
+  forall s h sys, w_fd s >= 0 -> w_writable s = true -> w_connecting s = false -> w_wqs s = 0 ->
+  (w_pipe s && w_ipc s = false -> try_write2 true s (Some h) sys = UV_EINVAL_) /\
+  (w_pipe s && w_ipc s = true -> h_fd h < 0 -> try_write2 true s (Some h) sys = UV_EBADF) /\
+  (try_write2 true s (Some h) sys >= 0 -> w_pipe s && w_ipc s = true /\ h_fd h >= 0).
+Proof. exact try_write2_fixed_checked. Qed.
+Print Assumptions C07_try_write2_checked_fixed.
